@@ -17,7 +17,7 @@ def trace(tid):
 
 
 ALPHABET = ([['load', t] for t in TIDS] + [['unload', t] for t in TIDS] + [['fail', 'missing', 'q1'], ['fail', 'ext', 'q2'], ['fail', 'ext', 't0']]
-            + [['step', 1], ['step', -1], ['step', 3]] + [['stepid', t, 1] for t in TIDS] + [['stepid', 't0', -1], ['stepid', 'tB', 4]])
+            + [['step', 1], ['step', -1], ['step', 3], ['reval', 1], ['reval', 3], ['reval', -1]] + [['stepid', t, 1] for t in TIDS] + [['stepid', 't0', -1], ['stepid', 'tB', 4]])
 
 
 def _v(x):
@@ -28,8 +28,8 @@ class C12(framework.PropertyCheck):
     pid = 'C12'
     quick_cases = 500
     thorough_cases = 6000
-    rule = ('op sequences (len<=6 random; thorough: all sequences of length<=3 over a 17-op alphabet plus random) of load / unload / '
-            'failing load (missing file, unsupported extension, duplicate id) / step / step "tid" over three generated traces with the '
+    rule = ('op sequences (len<=6 random; thorough: all sequences of length<=3 over a 20-op alphabet plus random) of load / unload / '
+            'failing load (missing file, unsupported extension, duplicate id) / step / step "tid" / relative evaluation over three generated traces with the '
             'same signal names and different lengths, probed after every op against a dictionary-of-traces reference; '
             'non-trivial = at least two traces loaded at some point and at least one failing load or unload')
 
@@ -82,6 +82,13 @@ class C12(framework.PropertyCheck):
                     else:
                         ok = False
                 plan.append((('eval', 'eorg', f'(step {op[1]})'), ('val', ('B', ok))))
+            elif k == 'reval':
+                if not loaded:
+                    continue
+                inr = all(0 <= loaded[t] + op[1] < LENS[t] for t in loaded)
+                q = '(reval (list ' + ' '.join(f'{t}^INDEX' for t in loaded) + f') {op[1]})'
+                want = ('L', True, tuple(('I', loaded[t] + op[1]) for t in loaded)) if inr else ('B', False)
+                plan.append((('eval', 'eorg', q), ('val', want)))
             elif k == 'stepid':
                 t = op[1]
                 if t not in loaded:
